@@ -302,7 +302,7 @@ def repro_cmd(case):
 def run_case(case, cap):
     t0 = time.time()
     r = ssm.run_ssm(case["st"], case["eq"], case["wc"], case["opts"], case["seed"], case["sanitize"],
-                    start=case.get("start"), timeout=cap, spelling=case.get("spelling", "int"), trail=case.get("trail", 0))
+                    start=case.get("start"), timeout=cap, spelling=case.get("spelling", "int"), trail=case.get("trail", 0), no_template=case.get("no_template", False))
     return r, time.time() - t0
 
 
@@ -649,6 +649,21 @@ def run(st, tier, seed):
         for v_ in res.violations[nv_:]:          # keep the replay file small
             if isinstance(v_.get("input"), dict) and "st" in v_["input"]:
                 v_["input"] = dict(v_["input"], note="two strands of %d and %d N, helix of %d pairs between the start of the first and the end of the second" % (L1, L2, h))
+    # the documented default template: started WITHOUT template= (and without sequence=) the program takes an all-N template of the
+    # length of the wc/eq files; a single strand (no separators) of 120-400 positions with a hairpin, oracle only
+    for _ in range(2 if quick else 10):
+        n_, h = rng.randint(120, 400), rng.randint(4, 30)
+        wc_ = [-1] * n_
+        for d_ in range(h):
+            wc_[d_], wc_[n_ - 1 - d_] = n_ - d_, d_ + 1
+        nt = {"st": "N" * n_, "eq": [i + 1 for i in range(n_)], "wc": wc_, "opts": ["imax=5", "quiet=TRUE"], "optname": "no-template-imax5",
+              "kind": "no-template", "seed": rng.randrange(1, 1 << 40), "sanitize": True, "no_template": True}
+        if not consistent(nt["st"], nt["eq"], nt["wc"]):
+            raise RuntimeError("generator produced an inconsistent template-less triple")
+        r_, dt_ = run_case(nt, max(cap, 30.0))
+        res.evaluations += 1
+        res.count("kind:started-without-template=")
+        judge(nt, r_, res, 0)
     res.extra["binary_runs_wall_s"] = round(time.time() - t_runs, 1)
     if drv:
         malformed_section(res, drv, rng, 14 if quick else 120)      # [checked model] (ii)
